@@ -1,6 +1,10 @@
 package main
 
-import "os"
+import (
+	"fmt"
+	"os"
+	"runtime"
+)
 
 var debugWF = os.Getenv("GOVC_DEBUG_WF") != ""
 
@@ -60,3 +64,20 @@ var instRounds = func() int {
 	}
 	return 2
 }()
+
+var debugKey = os.Getenv("GOVC_DEBUG_KEY")
+
+func shortStack() string {
+	pc := make([]uintptr, 12)
+	n := runtime.Callers(3, pc)
+	fr := runtime.CallersFrames(pc[:n])
+	out := ""
+	for {
+		f, more := fr.Next()
+		out += fmt.Sprintf("    %s:%d\n", f.Function, f.Line)
+		if !more {
+			break
+		}
+	}
+	return out
+}
